@@ -147,6 +147,8 @@ def attribute_errors(stderr, nwit):
 class Runner:
     """compiles witness chunks per configuration and runs irflow on them"""
     def __init__(self, prop, tier, seed):
+        import threading
+        self.coverage, self.cov_lock = {}, threading.Lock()
         self.prop, self.tier, self.seed = prop, tier, seed
         self.tmp = tempfile.mkdtemp(prefix='fastor_verif_%s_' % prop)
         self.results = []          # one dict per (witness, config)
@@ -274,6 +276,11 @@ class Runner:
                 if l.startswith('{'):
                     try:
                         r = json.loads(l)
+                        if '_coverage' in r:
+                            with self.cov_lock:
+                                for f, ls in r['_coverage'].items():
+                                    self.coverage.setdefault(f, set()).update(ls)
+                            continue
                         byid[r['id']] = r
                         got += 1
                     except Exception:
@@ -526,6 +533,9 @@ def finish(prop, tier, seed, runner, level, rule, trusted, floors=None, extra_co
     cov['undecided_obligations_not_counted'] = n_und_obl
     ev = {'property_id': prop, 'tier': tier, 'seed': seed, 'level': level, 'coverage': cov,
           'assumptions': assumptions or [], 'wall_s': round(time.time() - runner.t0, 2), 'violations': len(violations)}
+    if not os.environ.get('VERIF_NO_EVIDENCE') and getattr(runner, 'coverage', None):
+        os.makedirs(os.path.join(VERIF, 'evidence', 'coverage'), exist_ok=True)
+        json.dump({f: sorted(ls) for f, ls in sorted(runner.coverage.items())}, open(os.path.join(VERIF, 'evidence', 'coverage', '%s.%s.json' % (prop, tier)), 'w'))
     if not os.environ.get('VERIF_NO_EVIDENCE'):   # dev runs against seeded changes must not overwrite the evidence of the real tree
         json.dump(ev, open(os.path.join(VERIF, 'evidence', prop + '.json'), 'w'), indent=1)
     print('%s %s: %d witness instances, %d/%d obligations discharged, status %s, %.1fs, exit %d' % (prop, tier, len(res), n_ok, n_obl, by_status, time.time() - runner.t0, code))
